@@ -145,7 +145,6 @@ func run(c *fw.Case) {
 				c.Logf("request validation rejected valid graph for output %s: %v", out, err)
 			} else {
 				c.Count("hostile_rejected_by_request_validation/"+class, 1)
-				if class == "index-with-params" { println("DEBUGTMP", c.Index, out, err.Error()) }
 			}
 			continue // only inputs the request validation accepts count
 		}
@@ -539,21 +538,25 @@ func applyHostile(r *rand.Rand, mods *pbsubstreams.Modules, class string) bool {
 		m.BlockFilter = &pbsubstreams.Module_BlockFilter{Module: idx.Name, Query: &pbsubstreams.Module_BlockFilter_QueryFromParams{QueryFromParams: &pbsubstreams.Module_QueryFromParams{}}}
 		return true
 	case "params-value-names-descendant":
+		prepend := false
 		m := pick(r, mods, func(m *pbsubstreams.Module) bool {
 			return m.Inputs[0].GetParams() != nil && m.BlockFilter.GetQueryFromParams() == nil
 		})
 		if m == nil {
-			// give a params input to a map/store module
-			m = pick(r, mods, func(m *pbsubstreams.Module) bool { return gen.MGKind(m) != "index" })
-			if m == nil {
-				return false
-			}
-			m.Inputs = append([]*pbsubstreams.Module_Input{gen.MGParams("")}, m.Inputs...)
+			// give a params input to a map/store module that has none
+			m = pick(r, mods, func(m *pbsubstreams.Module) bool { return gen.MGKind(m) != "index" && m.Inputs[0].GetParams() == nil })
+			prepend = true
+		}
+		if m == nil {
+			return false
 		}
 		desc := gen.MGDescendants(mods, m.Name, nil)
 		o := pick(r, mods, func(x *pbsubstreams.Module) bool { return x != m && desc[x.Name] })
 		if o == nil {
 			return false
+		}
+		if prepend {
+			m.Inputs = append([]*pbsubstreams.Module_Input{gen.MGParams("")}, m.Inputs...)
 		}
 		m.Inputs[0].GetParams().Value = o.Name
 		return true
